@@ -2,6 +2,7 @@ package checks
 
 import (
 	"fmt"
+	"sort"
 
 	"verif/internal/docgen"
 	"verif/internal/jsonx"
@@ -211,8 +212,12 @@ func c11(ctx *Ctx) (*Outcome, error) {
 		}
 		cases = append(cases, composeCase(r, kind, 1+(i/2)%4, i%10 >= 8, i))
 	}
-	for i := 0; i < ctx.N(12, 60); i++ {
+	for i := 0; i < ctx.N(24, 96); i++ {
 		cases = append(cases, sharedNodeCase(i, sg.NewRng(ctx.Seed, fmt.Sprintf("C11-shared-%d", i))))
+	}
+	cases = append(cases, sharedNodeWitness())
+	for i := 0; i < ctx.N(8, 32); i++ {
+		cases = append(cases, crossBranchCase(i, sg.NewRng(ctx.Seed, fmt.Sprintf("C11-cross-%d", i))))
 	}
 	for i := 0; i < ctx.N(12, 90); i++ {
 		if c := sameRefTextTwinCase(ctx, i, sg.NewRng(ctx.Seed, fmt.Sprintf("C11-twin-%d", i)), 1<<30); c != nil {
@@ -228,4 +233,68 @@ func c11(ctx *Ctx) (*Outcome, error) {
 	o := FromSem(ctx, rep, "allOf/anyOf lists of 1-4 object branches (inline or $ref, disjoint property sets, own required and scalar constraints) at required/optional/array-item positions; for every subset S of the branches documents satisfying exactly S (branches outside S failed by a missing required key or a violated scalar constraint; in the hazard share also by a type fault, which is the recorded anyof-merged finding); allOf must accept iff S=all, anyOf iff S non-empty; the all-branches document must round-trip every branch's properties (union exposed); plus single-fault mutants of valid documents",
 		3000, commonAssumptions)
 	return o, nil
+}
+
+// crossBranchCase: allOf branches that speak about each other's keys - a branch requires a key that a sibling
+// declares (requiring branch first or last, inline or $ref, with or without properties of its own), and two branches
+// declare one key with different but compatible types (integer in one, number in the other: the conjunction is integer).
+func crossBranchCase(i int, r *sg.Rng) *sem.Case {
+	str := func() *sg.Schema { return &sg.Schema{Types: []string{"string"}} }
+	party := &sg.Schema{Types: []string{"object"}, Props: []sg.Prop{{Name: "name", S: str()}, {Name: "email", S: str()}}, Required: []string{"name"}}
+	requiring := &sg.Schema{Types: []string{"object"}, Props: []sg.Prop{{Name: "vatId", S: str()}}, Required: []string{"vatId", "email"}}
+	if i%4 == 3 {
+		requiring = &sg.Schema{Required: []string{"email"}} // a branch that only requires
+	}
+	pref := &sg.Schema{Ref: "#/$defs/Party", Target: party}
+	seller := &sg.Schema{AllOf: []*sg.Schema{pref, requiring}}
+	if i%2 == 1 {
+		seller = &sg.Schema{AllOf: []*sg.Schema{requiring, pref}}
+	}
+	contact := &sg.Schema{AllOf: []*sg.Schema{
+		{Types: []string{"object"}, Props: []sg.Prop{{Name: "kind", S: str()}}, Required: []string{"kind", "phone"}},
+		{Types: []string{"object"}, Props: []sg.Prop{{Name: "phone", S: str()}}},
+	}}
+	shipTo := &sg.Schema{Types: []string{"object"}, AllOf: []*sg.Schema{
+		{Types: []string{"object"}, Props: []sg.Prop{{Name: "city", S: str()}, {Name: "country", S: str()}}, Required: []string{"country"}},
+		{Types: []string{"object"}, Props: []sg.Prop{{Name: "zip", S: str()}}, Required: []string{"city"}},
+	}}
+	if (i/2)%2 == 1 {
+		shipTo.Types = nil
+	}
+	parcel := &sg.Schema{AllOf: []*sg.Schema{
+		{Types: []string{"object"}, Props: []sg.Prop{{Name: "weight", S: &sg.Schema{Types: []string{"integer"}}}, {Name: "count", S: &sg.Schema{Types: []string{"integer"}}}}},
+		{Types: []string{"object"}, Props: []sg.Prop{{Name: "weight", S: &sg.Schema{Types: []string{"number"}}}, {Name: "unit", S: str()}}},
+	}}
+	root := &sg.Schema{Types: []string{"object"}, Defs: []sg.Prop{{Name: "Party", S: party}}, Props: []sg.Prop{
+		{Name: "seller", S: seller}, {Name: "contacts", S: &sg.Schema{Types: []string{"array"}, Items: contact}}, {Name: "shipTo", S: shipTo}, {Name: "parcel", S: parcel},
+		{Name: "buyer", S: &sg.Schema{Ref: "#/$defs/Party", Target: party}},
+	}}
+	c := &sem.Case{Root: root, Sig: fmt.Sprintf("cross-branch/%d", i%8)}
+	full := map[string]jsonx.Obj{
+		"seller":  {{K: "name", V: "n"}, {K: "email", V: "e"}, {K: "vatId", V: "v"}},
+		"contact": {{K: "kind", V: "k"}, {K: "phone", V: "p"}},
+		"shipTo":  {{K: "city", V: "c"}, {K: "country", V: "y"}, {K: "zip", V: "z"}},
+		"parcel":  {{K: "weight", V: jsonx.N(2)}, {K: "count", V: jsonx.N(1)}, {K: "unit", V: "kg"}},
+		"buyer":   {{K: "name", V: "n"}},
+	}
+	if i%4 == 3 {
+		full["seller"] = full["seller"].Del("vatId")
+	}
+	wrap := func(key string, o jsonx.Obj) any {
+		if key == "contact" {
+			return jsonx.Obj{{K: "contacts", V: []any{o}}}
+		}
+		return jsonx.Obj{{K: key, V: o}}
+	}
+	for key, o := range full {
+		c.Docs = append(c.Docs, docgen.Doc{V: wrap(key, o), Class: "crossbranch", Label: key + "-complete"})
+		for _, kv := range o {
+			c.Docs = append(c.Docs, docgen.Doc{V: wrap(key, o.Del(kv.K)), Class: "crossbranch", Label: key + "-without-" + kv.K})
+		}
+	}
+	for _, w := range []any{"x", true, []any{}, jsonx.Obj{}, jsonx.Num("1.5"), jsonx.N(3), jsonx.Num("-7")} {
+		c.Docs = append(c.Docs, docgen.Doc{V: wrap("parcel", full["parcel"].Set("weight", w)), Class: "crossbranch", Label: "parcel-weight-type"})
+	}
+	sort.Slice(c.Docs, func(a, b int) bool { return string(jsonx.Marshal(c.Docs[a].V)) < string(jsonx.Marshal(c.Docs[b].V)) })
+	return c
 }
